@@ -1068,6 +1068,16 @@ void MatrixInversion(matrix *m, matrix *m_inv)
     }
 
     for(i = 0; i < m->row; i++){
+      /* partial pivoting: bring the largest entry of column i (rows i..n-1) onto the diagonal by row exchanges */
+      for(j = i+1; j < m->row; j++){
+        if(fabs(AI->data[j][i]) > fabs(AI->data[i][i])){
+          for(k = 0; k < 2*m->col; k++){
+            a = AI->data[i][k];
+            AI->data[i][k] = AI->data[j][k];
+            AI->data[j][k] = a;
+          }
+        }
+      }
       for(j = 0; j < m->col; j++){
         if(i!=j){
           ratio = AI->data[j][i] / AI->data[i][i];
